@@ -2918,6 +2918,25 @@ def check_C18(tier, seed, replay=None):
         g.compute_args()
         g.maydiverge = g.may_diverge()
         groups.append(g)
+    # the state store under throw / recover: a throw that falls through k failing recovery expressions (each changing the store
+    # before it fails) to one that matches -- snapshots taken and given back inside the handler loop, while other parses run
+    for k_ in range(1, 4):
+        for wrap in (None, "opt", "star"):
+            for dirty in (False, True):
+                g = Gram(len(groups) + 1)
+                e = g.seq([g.lit([F.A]), g.state("inc", "x", 1), g.throw("la")])
+                for i_ in range(k_):
+                    failing = g.seq(([g.state("set", "y", 2 + i_), g.state("app", "cl", 7)] if dirty else []) + [g.lit([F.B]), g.lit([F.B]), g.lit([F.B])])
+                    e = g.recover(e, failing, ["la"] if i_ != 1 else ["lb", "la"])
+                e = g.recover(e, g.action(g.seq([g.state("inc", "x", 10), g.un("star", g.any())])), ["la"])
+                if wrap:
+                    e = g.un(wrap, e)
+                g.rules = [g.seq([g.state("set", "x", 1), g.state("app", "cl", 2), e, g.action(g.seq([g.pred(False, "eq", key="x", arg=12), g.un("star", g.any())]))])]
+                g.disp = [""]
+                g.compute_args()
+                g.maydiverge = g.may_diverge()
+                groups.append(g)
+    groups += F.random_groups(seed + 2, n // 3, F.RandCfg(depth=4, maxrules=3, state=True, cloner=True, throw=True, preds=True), len(groups) + 1)
     lrg = F.lr_groups(seed, n // 3, gi0=len(groups) + 1)
     groups += lrg
     # character classes with Unicode classes, ranges and case folding on input beyond Latin-1: whatever the class matcher
